@@ -240,6 +240,9 @@ REVEALABLE = {}
 
 
 seeded_bits = z3.Function("seeded_bits", I, I, I, I)   # k-th random.getrandbits(n) after random.seed(s)
+int16 = z3.Function("int16", ISq, I)         # int(s, 16)
+int16_ok = z3.Function("int16_ok", ISq, B)   # int(s, 16) does not raise
+hexdigit = z3.Function("hexdigit", I, I)     # value of a hexadecimal digit character, -1 otherwise
 rng = z3.Function("rng", I, I)          # the i-th value drawn from random.getrandbits(32) (any stream)
 fill = z3.Function("fill", I, I, ISq)   # fill(v, n): n copies of v  (b"X" * n)
 
@@ -269,6 +272,11 @@ def lib_axioms():
         A.append(FA([s], isbytes(f(s)), patterns=[f(s)]))
     for enc, dec, ok in ((b64e, b64d, b64_ok), (b64ue, b64ud, b64u_ok)):
         A.append(FA([s], z3.And(ok(IS.cat(enc(s), pad2())), dec(IS.cat(enc(s), pad2())) == s), patterns=[enc(s)]))
+    # ASSUMED: int(s, 16) of exactly two hexadecimal digits (other accepted spellings - sign, blanks, underscore - are left open)
+    A.append(FA([v], hexdigit(v) == z3.If(z3.And(48 <= v, v <= 57), v - 48, z3.If(z3.And(97 <= v, v <= 102), v - 87,
+                                          z3.If(z3.And(65 <= v, v <= 70), v - 55, -1))), patterns=[hexdigit(v)]))
+    A.append(FA([s], z3.Implies(z3.And(ln(s) == 2, hexdigit(at(s, 0)) >= 0, hexdigit(at(s, 1)) >= 0),
+                                z3.And(int16_ok(s), int16(s) == 16 * hexdigit(at(s, 0)) + hexdigit(at(s, 1)))), patterns=[int16(s)]))
     A.append(FA([i], z3.And(0 <= rng(i), rng(i) < 2 ** 32), patterns=[rng(i)]))
     A.append(FA([v, n], ln(fill(v, n)) == z3.If(n > 0, n, 0), patterns=[fill(v, n)]))
     A.append(FA([v, n, i], z3.Implies(z3.And(0 <= i, i < n), at(fill(v, n), i) == v), patterns=[at(fill(v, n), i)]))
